@@ -10,7 +10,7 @@ import (
 	"verif/engine"
 )
 
-var c06Kinds = []string{"used-field-type", "unused", "used-annotation", "used-new", "used-new-of-nested-type", "used-static-receiver", "used-catch", "used-generic-arg", "wildcard", "static-used", "static-unused", "unused-second", "used-throws",
+var c06Kinds = []string{"used-field-type", "unused", "used-annotation", "used-new", "used-new-of-nested-type", "static-used-named-like-a-restricted-keyword", "used-static-receiver", "used-catch", "used-generic-arg", "wildcard", "static-used", "static-unused", "unused-second", "used-throws",
 	"used-static-field", "used-method-reference", "used-nested-receiver", "used-class-literal", "used-cast", "used-instanceof", "used-extends", "used-implements", "used-parameter-type", "used-return-type", "used-local-type", "used-array-type", "used-static-constant-in-expression", "used-annotation-argument", "wildcard-then-used-single-of-same-package", "used-single-then-wildcard-of-same-package", "unused-single-after-wildcard-of-same-package"}
 
 type c06File struct {
@@ -103,6 +103,11 @@ func c06Build(c *engine.C, idx int) c06File {
 		case "static-used":
 			add("import static lib.Helpers.help" + u + ";")
 			body = append(body, "    void helped"+u+"() {\n        help"+u+"();\n    }")
+		case "static-used-named-like-a-restricted-keyword":
+			// `with`, `to`, `open`, `record` have token types of their own and are identifiers all the same
+			kw := []string{"with", "to", "open", "record"}[(idx+i)%4]
+			add("import static lib.Dsl" + u + "." + kw + ";")
+			body = append(body, "    void dsl"+u+"() {\n        "+kw+"(1);\n    }")
 		case "static-unused":
 			f.optional[add("import static lib.Helpers.nope"+u+";")] = true
 		case "used-static-field":
